@@ -11,6 +11,7 @@ The store decision for an HTTP response, branch by branch:
 `refreshIsCachable(entry)` is an input here (`Reply.refreshCachable`); `ReusableRefresh.lean` computes it.
 -/
 import SquidModel.Cache.ReusableCc
+import SquidModel.Gen.CollapseFlags
 
 namespace SquidModel.Cache
 open SquidModel
@@ -214,10 +215,9 @@ def ccDecision (cfg : Config) (job : Job) (req : Request) (rep : Reply) : Option
     some ⟨.reuseNot, "server reply Cache-Control:private"⟩
   else none
 
-/-- HttpStateData::reusableReply -/
-def reusableReply (cfg : Config) (job : Job) (e : Entry) (req : Request) (rep : Reply) : Decision :=
-  if e.releaseRequest then ⟨.doNotCacheButShare, "the entry has been released"⟩
-  else if job.sawDateGoBack then ⟨.reuseNot, "the response has an older date header"⟩
+/-- HttpStateData::reusableReply without the RELEASE_REQUEST answer: what the reply itself allows -/
+def replyDecision (cfg : Config) (job : Job) (req : Request) (rep : Reply) : Decision :=
+  if job.sawDateGoBack then ⟨.reuseNot, "the response has an older date header"⟩
   else if job.surrogateNoStore then ⟨.reuseNot, "Surrogate-Control:no-store"⟩
   else
     match ccDecision cfg job req rep with
@@ -229,6 +229,16 @@ def reusableReply (cfg : Config) (job : Job) (e : Entry) (req : Request) (rep : 
         if (match rep.contentType with | some v => isMixedReplace v | none => false) then
           ⟨.reuseNot, "Content-Type:multipart/x-mixed-replace"⟩
         else statusDecision cfg rep
+
+/-- HttpStateData::reusableReply.  The source variant (Gen.CollapseFlags.releasedFirst, read from the staged src/http.cc) says
+whether "the entry has been released ⇒ doNotCacheButShare" is answered before the reply is looked at (pinned tree) or only when
+the reply's own answer is not `reuseNot` (repaired tree) -/
+def reusableReply (cfg : Config) (job : Job) (e : Entry) (req : Request) (rep : Reply) : Decision :=
+  if Gen.CollapseFlags.releasedFirst then
+    if e.releaseRequest then ⟨.doNotCacheButShare, "the entry has been released"⟩ else replyDecision cfg job req rep
+  else
+    if e.releaseRequest && (replyDecision cfg job req rep).answer != .reuseNot then ⟨.doNotCacheButShare, "the entry has been released"⟩
+    else replyDecision cfg job req rep
 
 /-! ### HttpStateData::haveParsedReplyHeaders: applying the decision -/
 
